@@ -28,3 +28,32 @@ Example C07_mpeg1audio_example :
    | _ => False
    end).
 Proof. vm_compute. reflexivity. Qed.
+
+(* ---- the translated kernels (tools/go2coq, regenerated from the Go source on every run) ----
+   The resynchronisation tests of rtpmpeg1audio/decoder.go - the 16-bit MBZ field uint16(Payload[0])<<8 | uint16(Payload[1])
+   with mbz != 0, the offset field uint16(Payload[2])<<8 | uint16(Payload[3]) with offset == 0, and the continuity test
+   int(offset) != d.fragmentsSize - ARE the tests of Model.dec: b0 * 256 + b1 =? 0, b2 * 256 + b3, offset =? 0,
+   offset =? dsize d. *)
+From Coq Require Import ZArith.
+From GVG Require Import Kern.
+From GV_mpeg1audio Require Import BridgeLib Bridge.
+Open Scope Z_scope.
+
+Theorem C07_mpeg1audio_kernels_are_the_code : forall (b0 b1 b2 b3 fs : N),
+  isbyte b0 -> isbyte b1 -> isbyte b2 -> isbyte b3 ->
+  k_mpeg1audio_dec_mbz (Z.of_N b0) (Z.of_N b1) = Z.of_N (b0 * 256 + b1) /\
+  k_mpeg1audio_dec_mbznz (k_mpeg1audio_dec_mbz (Z.of_N b0) (Z.of_N b1)) = negb (b0 * 256 + b1 =? 0)%N /\
+  k_mpeg1audio_dec_offset (Z.of_N b2) (Z.of_N b3) = Z.of_N (b2 * 256 + b3) /\
+  k_mpeg1audio_dec_off0 (k_mpeg1audio_dec_offset (Z.of_N b2) (Z.of_N b3)) = (b2 * 256 + b3 =? 0)%N /\
+  k_mpeg1audio_dec_offbad (k_mpeg1audio_dec_offset (Z.of_N b2) (Z.of_N b3)) (Z.of_N fs) = negb (b2 * 256 + b3 =? fs)%N.
+Proof. exact Bridge.resync_kernels_are_the_code. Qed.
+Print Assumptions C07_mpeg1audio_kernels_are_the_code.
+
+(* offset bytes 05 A6 = 1446; it continues a frame of which 1446 bytes are held, not one of which 1445 or 1447 are *)
+Example C07_mpeg1audio_example_kernels :
+  k_mpeg1audio_dec_offset 5 166 = 1446 /\ k_mpeg1audio_dec_mbz 0 1 = 1 /\
+  k_mpeg1audio_dec_mbznz 0 = false /\ k_mpeg1audio_dec_mbznz 256 = true /\
+  k_mpeg1audio_dec_off0 0 = true /\ k_mpeg1audio_dec_off0 1 = false /\
+  k_mpeg1audio_dec_offbad 1446 1446 = false /\ k_mpeg1audio_dec_offbad 1446 1445 = true /\
+  k_mpeg1audio_dec_offbad 1446 1447 = true.
+Proof. vm_compute. repeat split. Qed.
